@@ -101,7 +101,7 @@ def struct(mod, name, base, fields, default=None, debug=False, family="", extra=
         "kind": "struct",
         "mod": mod,
         "name": name,
-        "path": "%s::%s" % (mod, name),
+        "path": "%s::%s" % (mod.replace("()", ""), name),
         "base": base,
         "storage": storage_of(base),
         "default": default,  # None or {"form": "=", ":" , "const=" , "const:", "value": int}
@@ -121,7 +121,7 @@ def enum(mod, name, bits, variants, exh, repr_=None, family="ENUM", derives=None
         "kind": "enum",
         "mod": mod,
         "name": name,
-        "path": "%s::%s" % (mod, name),
+        "path": "%s::%s" % (mod.replace("()", ""), name),
         "bits": bits,
         "variants": [{"name": n, "discr": d, "cfg": c} for (n, d, c) in variants],
         "exh": exh,  # "true" | "false" | "conditional" | None (omitted)
@@ -448,8 +448,17 @@ class Crate:
             for d in self.mods[m]:
                 if not d.get("skip"):
                     imp |= imports_of(d)
-            out.append("/// module %s" % m)
-            out.append("pub mod %s {" % m)
+            # `a::b` = nested modules; a last segment ending in `()` = the body of a function (items declared locally)
+            segs = m.split("::")
+            for sg in segs[:-1]:
+                out.append("/// module %s" % sg)
+                out.append("pub mod %s {" % sg)
+            if segs[-1].endswith("()"):
+                out.append("/// declarations local to a function body")
+                out.append("pub fn %s() {" % segs[-1][:-2])
+            else:
+                out.append("/// module %s" % segs[-1])
+                out.append("pub mod %s {" % segs[-1])
             out.append("    #[allow(unused_imports)]")
             out.append("    use bitbybit::{bitenum, bitfield};")
             if imp:
@@ -482,7 +491,7 @@ class Crate:
                 for extra in d.get("post", []):
                     out.append("    " + extra)
                 decls.append(d)
-            out.append("}")
+            out.extend(["}"] * len(segs))
         return "\n".join(out) + "\n", decls
 
 
@@ -1785,6 +1794,21 @@ def fam_misc(tier, seed):
         s = struct(mod, "Paths%s" % ("d" if dflt else "n"), 48, fs, default=dflt, family="MISC")
         add_const_witnesses(s, seed, maxn=2)
         out.append(s)
+    # context: declarations in a nested module and local to a function body (with an enum and a nested bitfield
+    # declared in the same scope)
+    for ctxmod in ("misc_ctxm::inner::deeper", "misc_ctxf::holder()"):
+        e = mk_enum(ctxmod, "CtxE", 2, [0, 1, 2, 3], family="MISC")
+        o = mk_enum(ctxmod, "CtxO", 3, [2, 5], family="MISC")
+        n_ = struct(ctxmod, "CtxN", 4, [field("a", [(0, 3)], T_uint(4))], debug=True, family="MISC")
+        out += [e, o, n_]
+        fs = [field("flag", [(0, 0)], T_bool()), field("e", [(1, 2)], T_enum("CtxE", 2, True)), field("o", [(3, 5)], T_enum("CtxO", 3, False)),
+              field("n", [(8, 11)], T_nested("CtxN", 4)), field("s", [(16, 23)], T_int(8)), field("arr", [(24, 25)], T_uint(2), array={"k": 4, "stride": None}),
+              field("nc", [(12, 13), (6, 7)], T_uint(4))]
+        for dflt, dbg in ((None, False), ({"form": "=", "value": 0x1234_5678}, False)):
+            s = struct(ctxmod, "Ctx%s" % ("d" if dflt else "n"), 32, json.loads(json.dumps(fs)), default=dflt, family="MISC")
+            add_const_witnesses(s, seed, maxn=2)
+            out.append(s)
+        out.append(struct(ctxmod, "CtxDbg", 16, json.loads(json.dumps(fs[:4])), debug=True, family="MISC"))
     # zero fields
     out.append(struct(mod, "Empty8n", 8, [], family="MISC"))
     out.append(struct(mod, "Empty8d", 8, [], default={"form": "=", "value": 7}, family="MISC"))
